@@ -334,7 +334,14 @@ func classify(c string) (malformed bool, uid string) {
 	c = asSeenByServer(c)
 	raw, err := base64.URLEncoding.DecodeString(c)
 	if err != nil {
-		return true, ""
+		// Another base64 spelling (unpadded, standard alphabet, surplus padding) of bytes that are a token is
+		// not certainly malformed: a server may accept it or refuse it.
+		t := strings.TrimRight(c, "=")
+		if raw, err = base64.RawURLEncoding.DecodeString(t); err != nil {
+			if raw, err = base64.RawStdEncoding.DecodeString(t); err != nil {
+				return true, ""
+			}
+		}
 	}
 	var tok pageToken
 	if err := gob.NewDecoder(bytes.NewReader(completeMessages(raw))).Decode(&tok); err != nil {
@@ -574,6 +581,64 @@ type env struct {
 	nt     bool
 	hideOn atomic.Bool
 	ttlOn  atomic.Bool
+	// order[k][{a,b}]: some listing had a before b ("one stable order": which one is the SDK's business).
+	order [nKinds]map[[2]string]bool
+}
+
+// noteOrder records the relative order of the ids of one listing (earlier: ids of earlier pages of the
+// same traversal that are still the same registration; page: the new ids) and complains if an earlier
+// listing had two of them the other way round.
+func (e *env) noteOrder(what string, k int, earlier, page []string) bool {
+	if e.order[k] == nil {
+		e.order[k] = map[[2]string]bool{}
+	}
+	pair := func(a, b string) bool {
+		if a == b {
+			return true // duplicates are reported by their own checks
+		}
+		if e.order[k][[2]string{b, a}] {
+			e.res.Failf("%s: lists %q before %q, an earlier listing had them the other way round: not one stable order", what, a, b)
+			return false
+		}
+		e.order[k][[2]string{a, b}] = true
+		return true
+	}
+	for _, a := range earlier {
+		for _, b := range page {
+			if !pair(a, b) {
+				return false
+			}
+		}
+	}
+	for i := range page {
+		for j := i + 1; j < len(page); j++ {
+			if !pair(page[i], page[j]) {
+				return false
+			}
+		}
+	}
+	return true
+}
+
+// forgetOrder: a removed id that is registered again later is a new item and may take a new place.
+func (e *env) forgetOrder(k int, id string) {
+	for p := range e.order[k] {
+		if p[0] == id || p[1] == id {
+			delete(e.order[k], p)
+		}
+	}
+}
+
+// sameRegistration: id, seen in a listing at logical time t, has stayed registered since.
+func (m *model) sameRegistration(kind int, id string, t int) bool {
+	h := m.hist[kind][id]
+	return len(h) > 0 && h[len(h)-1].to == 0 && h[len(h)-1].from <= t
+}
+
+func sortedCopy(ids []string) []string {
+	out := slices.Clone(ids)
+	sort.Strings(out)
+	return out
 }
 
 var theT *testing.T
@@ -603,7 +668,7 @@ func connect(server *mcp.Server, version string) (*mcp.ClientSession, *mcp.Serve
 		return nil, nil, fmt.Errorf("server.Connect: %w", err)
 	}
 	client := mcp.NewClient(&mcp.Implementation{Name: "cli", Version: "1"}, nil)
-	cs, err := client.Connect(ctx, ct, &mcp.ClientSessionOptions{ProtocolVersion: version})
+	cs, err := client.Connect(ctx, ct, &mcp.ClientSessionOptions{ProtocolVersion: version}) // "": the SDK's latest
 	if err != nil {
 		ss.Close()
 		return nil, nil, fmt.Errorf("client.Connect(%s): %w", version, err)
@@ -632,6 +697,12 @@ func runInBubble(s Script, res *vt.Result) {
 		version = "2025-06-18"
 	}
 	cs, ss, err := connect(e.server, version)
+	if err != nil {
+		// An SDK that no longer speaks this legacy version: the property is not about versions, use its default.
+		res.Class("legacy_version_refused")
+		version = ""
+		cs, ss, err = connect(e.server, version)
+	}
 	if err != nil {
 		res.Failf("harness: %v", err)
 		return
@@ -666,7 +737,7 @@ func runInBubble(s Script, res *vt.Result) {
 	}
 	if len(res.Violations) == 0 {
 		// The same on a session speaking the current protocol (client-side list cache path).
-		cs2, ss2, err := connect(e.server, "2026-07-28")
+		cs2, ss2, err := connect(e.server, "") // whatever the SDK's current protocol is
 		if err != nil {
 			res.Failf("harness: %v", err)
 		} else {
@@ -721,7 +792,7 @@ func (e *env) lateChecks() {
 				e.res.Failf("%s (protocol %s, %s): iterator failed after yielding %q: %v", kindName[k], version, phase, got, err)
 				return false
 			}
-			if want := e.m.sorted(k); !slices.Equal(got, want) {
+			if want := e.m.sorted(k); !slices.Equal(sortedCopy(got), want) || !e.noteOrder(kindName[k]+" iterator, "+phase, k, nil, got) {
 				e.res.Failf("%s (protocol %s, %s, page size %d): iterator yielded %q, registered are %q", kindName[k], version, phase, e.s.PageSize, got, want)
 				return false
 			}
@@ -736,7 +807,7 @@ func (e *env) lateChecks() {
 		e.exec(op)
 	}
 	synctest.Wait()
-	time.Sleep(time.Second) // list-changed notifications are debounced
+	time.Sleep(30 * time.Second) // list-changed notifications are debounced by a period the SDK chooses; still well inside the 60 s TTL
 	synctest.Wait()
 	if listAll("listing again after list-changed notifications, within the TTL") {
 		e.res.Class("relisted_after_change_within_ttl")
@@ -870,6 +941,7 @@ func (e *env) remove(k int, ids []string) {
 	for _, id := range ids {
 		if e.m.remove(k, id) {
 			any = true
+			e.forgetOrder(k, id)
 		}
 	}
 	if any {
@@ -907,17 +979,13 @@ func (e *env) checkPage(what string, k int, items []item, next string) (ids []st
 		e.res.Failf("%s: page has %d items, page size is %d", what, len(items), e.s.PageSize)
 		ok = false
 	}
-	for j := 1; j < len(ids); j++ {
-		if ids[j-1] >= ids[j] {
-			e.res.Failf("%s: page %q is not in strictly ascending id order", what, ids)
-			ok = false
-			break
-		}
-	}
-	if next != "" && len(items) != e.s.PageSize {
-		e.res.Failf("%s: page with a next cursor has %d items, want exactly the page size %d", what, len(items), e.s.PageSize)
+	if u := sortedCopy(ids); len(slices.Compact(u)) != len(ids) {
+		e.res.Failf("%s: page %q lists an item twice", what, ids)
+		ok = false
+	} else if !e.noteOrder(what, k, nil, ids) { // one stable order, not necessarily ascending byte order
 		ok = false
 	}
+	// (PageSize is documented as a maximum: a shorter page that carries a next cursor is legal.)
 	return ids, ok
 }
 
@@ -939,12 +1007,19 @@ func (e *env) fetchPage(i int, in *string) {
 		return
 	}
 	ids, ok := e.checkPage(what, k, items, next)
-	if last, has := tr.lastID(); has && len(ids) > 0 && ids[0] <= last {
-		if slices.Contains(e.seen(tr), ids[0]) {
-			e.res.Failf("%s: item %q appears twice in the traversal (earlier pages %q, this page %q)", what, ids[0], e.seen(tr), ids)
-		} else {
-			e.res.Failf("%s: page %q does not continue strictly after %q: the traversal is not in one ascending order", what, ids, last)
+	var earlier []string // ids of earlier pages that are still the same registration as when they were listed
+	for _, p := range tr.pages {
+		for _, id := range p.ids {
+			if slices.Contains(ids, id) {
+				e.res.Failf("%s: item %q appears twice in the traversal (earlier pages %q, this page %q)", what, id, e.seen(tr), ids)
+				ok = false
+			}
+			if e.m.sameRegistration(k, id, p.t) {
+				earlier = append(earlier, id)
+			}
 		}
+	}
+	if ok && !e.noteOrder(what, k, earlier, ids) {
 		ok = false
 	}
 	tr.pages = append(tr.pages, page{t: e.m.now, in: in, ids: ids, next: next})
@@ -985,9 +1060,7 @@ func (e *env) finish(i int) {
 			e.res.Failf("%s traversal #%d: item %q appears twice: %q", kindName[k], i, id, got)
 		}
 	}
-	if !sort.StringsAreSorted(got) {
-		e.res.Failf("%s traversal #%d: sequence %q is not in ascending id order", kindName[k], i, got)
-	}
+	// (the order of the sequence was judged page by page against every other listing: noteOrder)
 	for _, id := range e.m.throughout(k, t1, t2) {
 		if count[id] != 1 {
 			e.res.Failf("%s traversal #%d (pages at logical times %v, page size %d): %q was registered during the whole traversal but appears %d times in %q",
@@ -1124,8 +1197,15 @@ func (e *env) buildAttack(k int, op Op) (cursor string, ok bool) {
 }
 
 // checkHostile is the oracle for one List call with an attacker-chosen cursor.
-func checkHostile(res *vt.Result, what string, cursor string, items []item, next string, err error, validPage func() bool) (outcome string) {
+// formatKnown: every cursor the server issued so far is base64url(gob(token naming the last item of its page)),
+// i.e. the harness' idea of the (opaque, internal) cursor format is right for this SDK; only then can it call
+// a cursor malformed.
+func checkHostile(res *vt.Result, what string, cursor string, items []item, next string, err error, formatKnown bool, validPage func() bool) (outcome string) {
 	malformed, _ := classify(cursor)
+	if !formatKnown {
+		malformed = false
+		res.Class("cursor_format_unknown")
+	}
 	if err != nil {
 		code, isWire := errCode(err)
 		switch {
@@ -1149,6 +1229,17 @@ func checkHostile(res *vt.Result, what string, cursor string, items []item, next
 	return "grey_page"
 }
 
+// formatKnown: see checkHostile.
+func (e *env) formatKnown() bool {
+	for _, is := range e.pool {
+		ids := e.travs[is.trav].pages[is.page].ids
+		if bad, uid := classify(is.cursor); bad || len(ids) == 0 || uid != ids[len(ids)-1] {
+			return false
+		}
+	}
+	return len(e.pool) > 0
+}
+
 func (e *env) attack(k int, op Op) {
 	cursor, ok := e.buildAttack(k, op)
 	if !ok || asSeenByServer(cursor) == "" {
@@ -1157,7 +1248,7 @@ func (e *env) attack(k int, op Op) {
 	}
 	what := fmt.Sprintf("%s with hostile cursor %q (class %s)", kindName[k], cursor, op.Class)
 	items, next, err := fetch(e.cs, k, &cursor)
-	outcome := checkHostile(e.res, what, cursor, items, next, err, func() bool {
+	outcome := checkHostile(e.res, what, cursor, items, next, err, e.formatKnown(), func() bool {
 		_, ok := e.checkPage(what, k, items, next)
 		return ok
 	})
@@ -1194,7 +1285,7 @@ func (e *env) finalChecks(cs *mcp.ClientSession, version string, kinds []int) {
 			return
 		}
 		manual := e.seen(tr)
-		if want := e.m.sorted(k); !slices.Equal(manual, want) {
+		if want := e.m.sorted(k); !slices.Equal(sortedCopy(manual), want) { // as sets; the order was judged by noteOrder
 			e.res.Failf("%s (protocol %s): manual paging on the quiescent server returned %q, registered are %q", kindName[k], version, manual, want)
 			return
 		}
@@ -1343,7 +1434,7 @@ func (e *env) filteredChecks(cs *mcp.ClientSession, version string, kinds []int)
 				want = append(want, id)
 			}
 		}
-		if !slices.Equal(manual, want) {
+		if !slices.Equal(sortedCopy(manual), want) || !e.noteOrder(fmt.Sprintf("%s (protocol %s, filtered)", kindName[k], version), k, nil, manual) {
 			e.res.Failf("%s (protocol %s, filtered): manual paging returned %q, registered and not hidden are %q", kindName[k], version, manual, want)
 			return
 		}
